@@ -347,6 +347,11 @@ Qed.
 Theorem ws_model_meets_spec p ls : spec_verdict p (tr p ls) = None.
 Proof. apply model_meets_spec. Qed.
 
+(** the same oracle, softened for the part of a connection observed while it was going down (WsSpec.v):
+    it accepts every model trace too, wherever the going-down part is taken to start *)
+Theorem ws_model_meets_spec_closing k p ls : spec_verdict_from k p (tr p ls) = None.
+Proof. apply model_meets_spec_from. Qed.
+
 (** ** the repaired defects, kept as witnesses *)
 From Coq Require Import String.
 Open Scope string_scope.
